@@ -151,6 +151,7 @@ impl<'a> Model<'a> {
     }
 
     /// Union semantics (no shadowing): everything reachable through the imports of `file`, by name.
+    /// An explicit `from m import a, b` reaches m (and what m reaches) for the names a and b only.
     fn reachable_union(&self, file: &str, visiting: &mut BTreeSet<String>, out: &mut BTreeMap<String, BTreeSet<usize>>, top: bool) {
         if !visiting.insert(file.to_string()) {
             return;
@@ -165,9 +166,20 @@ impl<'a> Model<'a> {
         if let Some(f) = self.spec.file(file) {
             for it in &f.items {
                 match it {
-                    Item::Star { target: Some(t), .. } | Item::Import { target: Some(t), .. } => {
+                    Item::Star { target: Some(t), .. } => {
                         if self.files.contains(t) {
                             self.reachable_union(t, visiting, out, false);
+                        }
+                    }
+                    Item::Import { target: Some(t), names, .. } => {
+                        if self.files.contains(t) {
+                            let mut sub = BTreeMap::new();
+                            self.reachable_union(t, &mut visiting.clone(), &mut sub, false);
+                            for n in names {
+                                if let Some(s) = sub.get(n) {
+                                    out.entry(n.clone()).or_default().extend(s.iter().copied());
+                                }
+                            }
                         }
                     }
                     Item::Plugins { targets, .. } => {
